@@ -22,7 +22,7 @@ pub struct ActorModelState<A: Actor, H = ()> {
 }
 
 /// Represents a set of random choices for one actor.
-#[derive(Clone, Debug, Serialize)]
+#[derive(Clone, Debug, Eq, Hash, PartialEq, Serialize)]
 pub struct RandomChoices<Random> {
     /// The map of random choices for an actor.
     ///
@@ -119,6 +119,19 @@ where
     }
 }
 
+impl<A: Actor, H> ActorModelState<A, H> {
+    /// The pending random choices by actor index. An actor without pending choices contributes
+    /// nothing to the identity of a state.
+    fn pending_random_choices(
+        &self,
+    ) -> impl Iterator<Item = (usize, &RandomChoices<A::Random>)> {
+        self.random_choices
+            .iter()
+            .enumerate()
+            .filter(|(_, choices)| !choices.map.is_empty())
+    }
+}
+
 // Manual implementation to avoid `Eq` constraint that `#derive(Eq)` would introduce on
 // `ActorModelState<A, H>` type parameters.
 impl<A, H> Eq for ActorModelState<A, H>
@@ -140,6 +153,11 @@ where
         self.actor_states.hash(state);
         self.history.hash(state);
         self.timers_set.hash(state);
+        for (index, choices) in self.pending_random_choices() {
+            index.hash(state);
+            choices.hash(state);
+        }
+        self.crashed.hash(state);
         self.network.hash(state);
     }
 }
@@ -156,6 +174,10 @@ where
         self.actor_states.eq(&other.actor_states)
             && self.history.eq(&other.history)
             && self.timers_set.eq(&other.timers_set)
+            && self
+                .pending_random_choices()
+                .eq(other.pending_random_choices())
+            && self.crashed.eq(&other.crashed)
             && self.network.eq(&other.network)
     }
 }
